@@ -108,18 +108,23 @@ func b2i(b bool) int {
 }
 
 // deepCopy copies maps and slices (scalars are immutable).
-func deepCopy(v interface{}) interface{} {
+func deepCopy(v interface{}) interface{} { return deepCopyN(v, 0) }
+
+func deepCopyN(v interface{}, depth int) interface{} {
+	if depth > 300 {
+		return "?cyclic-or-too-deep"
+	}
 	switch x := v.(type) {
 	case map[string]interface{}:
 		c := make(map[string]interface{}, len(x))
 		for k, e := range x {
-			c[k] = deepCopy(e)
+			c[k] = deepCopyN(e, depth+1)
 		}
 		return c
 	case []interface{}:
 		c := make([]interface{}, len(x))
 		for i, e := range x {
-			c[i] = deepCopy(e)
+			c[i] = deepCopyN(e, depth+1)
 		}
 		return c
 	}
